@@ -10,6 +10,16 @@ NOTE = ("Trusted: Coq 8.16.1 kernel (no axioms: every property theorem prints 'C
         "The theorems are about the hand-written Gallina model; the model is tied to /repo on every run by the table "
         "translator and by the differential correspondence run, which bounds what has been exercised.")
 CLAIMED = {
+    "C11": dict(
+        text="8 theorems (partial by nature: bytes of stack are not expressible in a model): the pull parser's continuation stack tracks the "
+             "number of open collections for EVERY token stream (heap, not call stack); the recursion depth of the push loader model and of "
+             "tree traversals (drop/clone/eq/hash/emit) equals the nesting depth; flow nesting is bounded by FLOW_LEVEL_MAX = 255 "
+             "(regenerated from scanner.rs) and exceeding it is an error; and machine-checked REFUTATIONS: for every bound there is an "
+             "accepted block-nested input exceeding it, so load/drop/emit recursion is unbounded (family '- '^d a, proved by induction on d). "
+             "Dynamic part: depth sweep 1..10^5 x 7 shapes x 4 APIs (+2 auxiliary), each scenario in a child process on an 8 MiB stack, "
+             "crash thresholds bisected. Known finding: unbounded block nesting aborts load/drop/emit (thresholds in known_findings_c11.jsonl).",
+        ref="DESIGN.md 5/C11", tech="Rocq proof (depth = recursion depth; flow bound; refutation of a block bound) + child-process depth sweep with bisection",
+        note="Partial by nature: the 8 MiB limit and frame sizes are runtime facts observed by exit status only."),
     "C16": dict(
         text="18 theorems: resolve_tag equals the spec's expand on the parser's table for every handle shape (error exactly for an undeclared "
              "named handle); the directive loop yields merge T (decls run) for EVERY run of directive tokens, errors exactly on a duplicate "
